@@ -10,7 +10,7 @@ def run(tier):
     rep.add_driver_result(res)
     st = res["stats"]
     rep.coverage = dict(evaluations=st.get("evaluations", 0), distinct_nontrivial=res["nontrivial"],
-                        rule="case = (two-module program, history of entry calls): 6 edge kinds x 6 target kinds x 5 signatures x every sequence of up to " + ("5" if tier == "thorough" else "4") +
+                        rule="case = (two-module program, history of entry calls): 6 edge kinds x 8 target kinds x 8 signatures x every sequence of up to " + ("5" if tier == "thorough" else "4") +
                              " calls over the 3 entry points; each history runs in a fresh context under MIR_interp (reference) and under the interpreter C interface, eager, lazy and lazy-BB generation (" + ("-O0..-O3" if tier == "thorough" else "-O0 and -O2") +
                              "), entry addresses taken once after linking; evaluations = (case, interface, level) executions compared on every return value, the state data item and the native-call log",
                         cases=res["done"], total_cases=res["ncases"], distinct_observed_behaviours=len(res["outcomes"]), samples=res["samples"], exhaustive=res["exhaustive"])
